@@ -9,6 +9,7 @@
 // same traits with `dev()` false and promise only what their own `ensures`
 // say.  Generic code is verified for every implementor of the contract.
 // ===========================================================================
+global size_of usize == 8;   // cfg: x86_64
 pub mod io {
     use vstd::prelude::*;
     pub struct Error { pub k: u8 }
@@ -73,11 +74,14 @@ pub broadcast group group_le_len { lemma_le16_len, lemma_le32_len, lemma_le64_le
 pub open spec fn at(d: Seq<u8>, p: int, n: int) -> Seq<u8> { d.subrange(p, p + n) }
 pub open spec fn inb(d: Seq<u8>, p: int, n: int) -> bool { 0 <= p && 0 <= n && p + n <= d.len() }
 
-// overwrite/extend b at position p with w (a gap is zero filled, as for files and Cursor<Vec>)
+// overwrite/extend b at position p with w (a gap is zero filled, as for files and Cursor<Vec>);
+// writing nothing changes nothing
 #[verifier::opaque]
 pub open spec fn put(b: Seq<u8>, p: int, w: Seq<u8>) -> Seq<u8> {
+    if w.len() == 0 { b } else {
     Seq::new(if b.len() > p + w.len() { b.len() } else { (p + w.len()) as nat }, |i: int|
         if p <= i < p + w.len() { w[i - p] } else if i < b.len() { b[i] } else { 0u8 })
+    }
 }
 
 pub const MAX_OFF: u64 = 0x7fff_ffff_ffff_ffff; // off_t: device lengths and positions fit i64
